@@ -228,7 +228,9 @@ func main() {
 	flag.Parse()
 	if *heapOut != "" {
 		for _, e := range heapMain(*repo, *heapOut) {
-			fmt.Fprintln(os.Stderr, "translate:", e)
+			// not "translate:" — a construct outside the heap mode's subset makes the module of its group fail to
+			// compile, which breaks the obligations of the properties that import it, and only those
+			fmt.Fprintln(os.Stderr, "translate-heap (the module does not compile):", e)
 		}
 	}
 	t := &tr{fset: token.NewFileSet(), files: map[string]*ast.File{}, consts: map[string]string{}, constType: map[string]string{}, sentinels: map[string]bool{}, sets: map[string][]string{}, slices: map[string][]string{}, structs: map[string][][2]string{}, errStruct: map[string]bool{}, fns: map[string]*fnInfo{}, intTypes: map[string]bool{}}
